@@ -44,17 +44,19 @@ structure Packet where
   ts : BitVec 64
   /-- client session id field of a server message header (unused in client messages) -/
   csid : Nat
-  /-- padding length fits and the SOCKS address parses -/
-  rest : Bool
+  /-- the padding length fits in the plaintext -/
+  padOk : Bool
+  /-- the SOCKS address parses -/
+  addrOk : Bool
 deriving Repr, DecidableEq
 
 inductive Res where
-  | ok | tooSmall | replay | authFail | incomplete | badType | badTimestamp | csidMismatch | badRest | tooManySessions
+  | ok | tooSmall | replay | authFail | incomplete | badType | badTimestamp | csidMismatch | badAddr | tooManySessions
 deriving Repr, DecidableEq
 
 def Res.name : Res → String
   | .ok => "ok" | .tooSmall => "too-small" | .replay => "replay" | .authFail => "auth" | .incomplete => "incomplete"
-  | .badType => "type" | .badTimestamp => "timestamp" | .csidMismatch => "csid" | .badRest => "rest"
+  | .badType => "type" | .badTimestamp => "timestamp" | .csidMismatch => "csid" | .badAddr => "addr"
   | .tooManySessions => "too-many-sessions"
 
 /-- `ValidateUnixEpochTimestamp(b, now)` on 64-bit words exactly as written (wrapping `tsEpoch - nowEpoch`, two
@@ -63,22 +65,33 @@ the function body and its two UDP call sites are pinned by Gen facts (`srcValida
 `udpClientHeaderChecks`, `udpServerHeaderChecks`). -/
 def tsValid (ts : BitVec 64) (now : Nat) : Bool := SSV.SaltPool.tsValid tsParams ts now
 
-/-- `ParseUDPClientMessageHeader`: `none` = header accepted -/
-def parseClientHeader (now : Nat) (p : Packet) : Option Res :=
-  if !p.hdr then some .incomplete
-  else if p.typ != headerTypeClientPacket then some .badType
-  else if !tsValid p.ts now then some .badTimestamp
-  else if !p.rest then some .badRest
-  else none
+open SSV.Gen.C04 (HdrCheck)
 
-/-- `ParseUDPServerMessageHeader` -/
+/-- one check of a UDP message header parser: `some e` = the parse ends with error `e`.
+`len` and `pad` both return `ErrPacketIncompleteHeader` in the code. -/
+def checkFails (now csid goodTyp : Nat) (p : Packet) : HdrCheck → Option Res
+  | .len => if !p.hdr then some .incomplete else none
+  | .typ => if p.typ != goodTyp then some .badType else none
+  | .ts => if !tsValid p.ts now then some .badTimestamp else none
+  | .csid => if p.csid != csid then some .csidMismatch else none
+  | .pad => if !p.padOk then some .incomplete else none
+  | .addr => if !p.addrOk then some .badAddr else none
+
+/-- run a program of checks in order: the first failing one decides -/
+def runChecks (f : HdrCheck → Option Res) : List HdrCheck → Option Res
+  | [] => none
+  | c :: r => match f c with
+    | some e => some e
+    | none => runChecks f r
+
+/-- `ParseUDPClientMessageHeader`: the checks in the order the source has them now (Gen fact
+`udpClientHeaderOrder`, extracted from the function body); `none` = header accepted -/
+def parseClientHeader (now : Nat) (p : Packet) : Option Res :=
+  runChecks (checkFails now 0 headerTypeClientPacket p) SSV.Gen.C04.udpClientHeaderOrder
+
+/-- `ParseUDPServerMessageHeader` (Gen fact `udpServerHeaderOrder`) -/
 def parseServerHeader (now : Nat) (csid : Nat) (p : Packet) : Option Res :=
-  if !p.hdr then some .incomplete
-  else if p.typ != headerTypeServerPacket then some .badType
-  else if !tsValid p.ts now then some .badTimestamp
-  else if p.csid != csid then some .csidMismatch
-  else if !p.rest then some .badRest
-  else none
+  runChecks (checkFails now csid headerTypeServerPacket p) SSV.Gen.C04.udpServerHeaderOrder
 
 /-! ### server unpacker -/
 
